@@ -35,6 +35,12 @@ def check(run):
     for dev, depth in (('Q2', 4), ('Q3', 4 if thorough else 3)):
         st = run.explore(f'{dev}: sequences of 1..{depth} operations, all messages in one buffer', SPEC + ({'device': dev, 'depth': depth, 'one_buffer': True},), 900)
         records.extend(st['records'])
+    # several units in one message, one of them failing at execution: the relative queue query behind it still finds its header
+    # (or, C06, is skipped): SYST:ERR:COUN? 1;NEXT?
+    for dev, depth in (('Q2', 4), ('Q3', 4 if thorough else 3), ('T3', 3)):
+        st = run.explore(f'{dev}: sequences of 1..{depth} operations incl. a failing unit followed by a relative queue query in the same message',
+                         SPEC + ({'device': dev, 'depth': depth, 'kinds': ['undefined', 'custom', 'next', 'count', 'arity;next', 'next+count']},), 900)
+        records.extend(st['records'])
     # long histories with few kinds of operation: what happens after an overflow has been partly read out (2N+3 operations and more)
     for dev, depth, kinds in (('Q2', 8, ['undefined', 'next', 'count']), ('Q3', 9 if thorough else 8, ['undefined', 'next', 'count']), ('Q2', 7, ['undefined', 'custom', 'next', 'next+count']),
                               ('Q4', 11 if thorough else 9, ['undefined', 'next'])):
